@@ -17,7 +17,13 @@
 #   Q4 qmail-pop3d.c main: getuid() check moved behind chdir                   -> root_refused
 #   Q5 pop3_apop: user length one short                                        -> popup_commands
 #   Q6 doanddie: hostname missing from the timestamp                           -> popup_auth
+#   Q7 pop3_greet: hostname missing from the greeting's timestamp              -> popup_commands
 #   G1 getlist: cur/ not scanned   G2 prioq_insert: order reversed   G3 maildir.c append: dot files not skipped -> getlist
+#
+# GENUINE FINDING on the current tree (replays/C19/msgno_huge__D20): msgno() takes a message number >= 2^64 for its value
+# mod 2^64 (scan_ulong wraps), e.g. "DELE 55340232221128654850" marks message 2.  msgno.c assumes exactly that input
+# class away when compiled with -DKNOWN_C19_MSGNO_WRAP (known-findings.txt: `finding: property=C19 obligation=msgno_huge
+# exclude=KNOWN_C19_MSGNO_WRAP what=...`); with the class excluded, or with the proposed patch, every D is UNSAT.
 import itertools
 from vlib import Obl, Prog
 
